@@ -2,7 +2,7 @@
 from ..core import hx, ints
 
 ID = "C12"
-PROPS = ["F1Verif.Props.C12", "F1Verif.Props.FactsC12", "F1Verif.Props.Pipeline", "F1Verif.Props.RefineC12", "F1Verif.Props.RefineC12Grid", "F1Verif.Props.FloatSpec", "F1Verif.Props.C12Float", "F1Verif.Props.FactsC09", "F1Verif.Props.RefineC09W"]
+PROPS = ["F1Verif.Props.C12", "F1Verif.Props.FactsC12", "F1Verif.Props.Pipeline", "F1Verif.Props.RefineC12", "F1Verif.Props.RefineC12Grid", "F1Verif.Props.FloatSpec", "F1Verif.Props.C12Float", "F1Verif.Props.FactsC09", "F1Verif.Props.RefineC09W", "F1Verif.Props.RefineC14B"]
 RULE = ("engine A on api.NewDistribution (scripted rate and random sources): small (N<=40, r<=200) near-exhaustive "
         "sampling, larger random (N up to 864000, r up to 1e7) in summary form, time-varying rates over several cycles, "
         "random sources inside and beyond range, pass-through intervals, invalid kinds/intervals; outputs compared "
